@@ -8,6 +8,7 @@ import sys
 from pathlib import Path
 
 import common as C
+import history as H
 import pagegen as G
 import zocheck as ZC
 import zorgapi as Z
@@ -222,10 +223,30 @@ def one_dir(ctx, res, rng, d):
         rc, _, _ = Z.zorg_main(zdir, "db", "create", config=cfg)
     if rc != 0:
         return model_reqs
+    if rng.random() < 0.4:
+        # notes that were edited and stamped on later days (also twice: the old stamp is replaced) before they are moved
+        w = H.World(ctx, rng, zdir, cfg, start=TODAY)
+        for _rnd in range(3):
+            w.advance(1)
+            for _ in range(rng.randint(1, 3)):
+                w.edit(kinds=["body", "body", "bullet"])
+            # ... and the same multi-line notes in every round, so that their stamp is replaced on the second and third day
+            for rel, text in w.files().items():
+                ls = text.split("\n")
+                spans = [(a, b) for a, b in H.item_spans(ls) if b - a > 1][:2]
+                for a, _b in spans:
+                    ls[a] += f" r{_rnd}"
+                if spans:
+                    (zdir / rel).write_text("\n".join(ls))
+            if w.run("db", "reindex") != 0:
+                return model_reqs
+        files = dict(w.files())
+        res.count("dirs_with_stamped_notes")
     rows = G.dump_index(zdir)
     for r in rows:
         r["priority"] = f"P{r['priority']}" if r["priority"] is not None else None
     twins = [r for r in rows if any(o["zid"] == r["zid"] + "A" for o in rows)]
+    twins += [r for r in rows if "\n" in r["body"] and re.match(r"^\d{6} \d{6}#", r["body"])][:2]   # stamped multi-line notes first
     twins += [r for r in rows if any(o["zid"] != r["zid"] and o["zid"].lower() == r["zid"].lower() for o in rows)][:2]
     sample = rows if len(rows) <= 6 or ctx.tier == "thorough" else (twins[:4] + rng.sample(rows, max(0, 6 - len(twins[:4]))))
     for row in sample:
